@@ -397,4 +397,52 @@ theorem filterCalls_head (fs : List Filt) (d : Data) (h : fs ≠ []) : (filterCa
   | nil => exact absurd rfl h
   | cons f fs => simp [filterCalls]
 
+/-! ### items of the event data -/
+
+theorem find_map_set_self (k : String) (v : Val) (d : Data) (h : d.any (fun x => x.1 == k) = true) :
+    ((d.map fun p => if p.1 == k then (k, v) else p).find? (fun x => x.1 == k)).map (·.2) = some v := by
+  induction d with
+  | nil => simp at h
+  | cons p d ih =>
+    rw [List.map_cons, List.find?_cons]
+    cases hpk : (p.1 == k)
+    · have hd : d.any (fun x => x.1 == k) = true := by
+        rw [List.any_cons, hpk] at h; simpa using h
+      simp only [Bool.false_eq_true, if_false, hpk]
+      exact ih hd
+    · simp
+
+theorem find_map_set_other (k k' : String) (v : Val) (hk : (k == k') = false) (d : Data) :
+    ((d.map fun p => if p.1 == k then (k, v) else p).find? (fun x => x.1 == k')) = d.find? (fun x => x.1 == k') := by
+  induction d with
+  | nil => rfl
+  | cons p d ih =>
+    rw [List.map_cons, List.find?_cons, List.find?_cons]
+    cases hpk : (p.1 == k)
+    · simp only [Bool.false_eq_true, if_false]
+      cases hq : (p.1 == k')
+      · simp only [Bool.false_eq_true, if_false]; exact ih
+      · simp
+    · have e : p.1 = k := by simpa using hpk
+      have hq : (p.1 == k') = false := by rw [e]; exact hk
+      simp only [if_true, hk, hq]
+      exact ih
+
+theorem get?_set_self (d : Data) (k : String) (v : Val) : (d.set k v).get? k = some v := by
+  unfold Data.set Data.get?
+  split
+  · next h => exact find_map_set_self k v d h
+  · next h =>
+    have hn : d.find? (fun x => x.1 == k) = none := by
+      rw [List.find?_eq_none]
+      intro x hx hxk
+      exact h (List.any_eq_true.2 ⟨x, hx, hxk⟩)
+    simp [List.find?_append, hn]
+
+theorem get?_set_other (d : Data) (k k' : String) (v : Val) (hk : k' ≠ k) : (d.set k v).get? k' = d.get? k' := by
+  have hb : (k == k') = false := by simpa using fun e : k = k' => hk e.symm
+  unfold Data.set Data.get?
+  split
+  · rw [find_map_set_other k k' v hb d]
+  · simp [List.find?_append, hb]
 end Edzed.Output
